@@ -255,6 +255,10 @@ def w_history(ctx, rng, i):
     opts = {}
     if kind == "ThinPlateSplines":
         s, tg = tx.tps_pair(rng)
+        if rng.random() < 0.3:
+            # integer pixel positions as the first target (later targets are ordinary floats)
+            tg = ms.PointCloud(np.round(tg.points * 2).astype(np.int64))
+            opts_int = True
         k = int(rng.integers(0, 3))
         kern = [None, R2LogR2RBF(s.points.copy()), R2LogRRBF(s.points.copy())][k]
         msv = [1e-4, 1e-6, 1e-5][rng.integers(0, 3)]
@@ -269,6 +273,10 @@ def w_history(ctx, rng, i):
     else:
         n = int(rng.integers(d + 1, 14))
         s, tg = ms.PointCloud(gen.general_position(rng, n, d)), ms.PointCloud(gen.general_position(rng, n, d))
+        if rng.random() < 0.25:
+            tg = ms.PointCloud(np.round(tg.points * 3).astype(np.int64))
+        if rng.random() < 0.25:
+            s = ms.PointCloud(np.round(s.points * 3).astype(np.int64))
         if kind == "AlignmentSimilarity":
             opts = {"rotation": bool(rng.random() < 0.6), "allow_mirror": bool(rng.random() < 0.5)}
             if rng.random() < 0.5:
@@ -284,18 +292,21 @@ def w_history(ctx, rng, i):
     live = [t]
     shape = []
     accepted = 0
+    last_target = {}      # id(alignment) -> the caller's own target object handed over last
     for step in range(int(rng.integers(1, 7))):
         who = live[rng.integers(0, len(live))]
         r = rng.random()
         if r < 0.2:
             live.append(who.copy())
             shape.append("copy")
+            last_target.clear()      # the copy holds the same target object: the caller no longer edits it
             continue
         if r < 0.27:
             # the inverse alignment joins the live objects: it has its own source (the old target) and retargets on its own
             try:
                 live.append(who.pseudoinverse())
                 shape.append("invert")
+                last_target.clear()  # that target object now is the inverse's source: the caller no longer edits it
             except Exception:
                 pass
             continue
@@ -322,6 +333,15 @@ def w_history(ctx, rng, i):
         P = gen.points_inside_mesh(rng, who.source.points, np.asarray(who.source.trilist), 6, margin=0.08) if warp and kind != "ThinPlateSplines" else tx.probe(rng, d, 6)
         before = who.apply(P)
         nt = new_target(rng, who, kind, who.source.points.copy())
+        mine = last_target.get(id(who))
+        if mine is not None and rng.random() < 0.3:
+            # the caller refreshes the coordinates of the target object it handed over before and hands the same object over again
+            mine.points = nt.points.copy() if rng.random() < 0.5 else mine.points * 0 + nt.points
+            nt = mine
+            shape.append("same_object")
+        elif rng.random() < 0.2 and kind != "ThinPlateSplines" or rng.random() < 0.1:
+            nt.points = np.round(nt.points * 4).astype(np.int64) if not warp else nt.points
+        last_target[id(who)] = nt
         who.set_target(nt)
         after = who.apply(P)
         try:
